@@ -72,11 +72,17 @@ def strip_comments(src):
 
 
 def theorem_names(prop):
-    path = os.path.join(LEAN, "Kitoken", "Theorems", prop + ".lean")
-    if not os.path.exists(path):
-        return []
-    src = strip_comments(open(path).read())
-    return re.findall(r"^theorem\s+([A-Za-z0-9_'.₀-₉]+)", src, re.M)
+    """Property theorems of `prop`: Theorems/<prop>.lean and continuation files Theorems/<prop>[a-z].lean
+    (same namespace Kitoken.<prop>, imported by the main file)."""
+    base = os.path.join(LEAN, "Kitoken", "Theorems")
+    paths = [os.path.join(base, prop + ".lean")] + sorted(glob.glob(os.path.join(base, prop + "[a-z].lean")))
+    names = []
+    for path in paths:
+        if not os.path.exists(path):
+            continue
+        src = strip_comments(open(path).read())
+        names += re.findall(r"^theorem\s+([A-Za-z0-9_'.₀-₉]+)", src, re.M)
+    return names
 
 
 def lean_sources_for_audit():
